@@ -110,3 +110,101 @@ func After(d Duration) *vrt.Chan[Time] {
 	go func() { c.TrySendEnv(<-rtime.After(d)) }()
 	return c
 }
+
+// ---------------------------------------------------------------------------
+// further pass-throughs so that edits that use more of package time still build
+
+type (
+	Weekday    = rtime.Weekday
+	Location   = rtime.Location
+	ParseError = rtime.ParseError
+)
+
+const (
+	RFC3339     = rtime.RFC3339
+	RFC3339Nano = rtime.RFC3339Nano
+	RFC1123     = rtime.RFC1123
+	Kitchen     = rtime.Kitchen
+	DateTime    = rtime.DateTime
+	DateOnly    = rtime.DateOnly
+	TimeOnly    = rtime.TimeOnly
+	Layout      = rtime.Layout
+)
+
+var (
+	UTC   = rtime.UTC
+	Local = rtime.Local
+)
+
+func Unix(s, ns int64) Time                    { return rtime.Unix(s, ns) }
+func UnixMilli(ms int64) Time                  { return rtime.UnixMilli(ms) }
+func UnixMicro(us int64) Time                  { return rtime.UnixMicro(us) }
+func Parse(l, v string) (Time, error)          { return rtime.Parse(l, v) }
+func ParseDuration(s string) (Duration, error) { return rtime.ParseDuration(s) }
+func Date(y int, m Month, d, h, mi, s, ns int, loc *Location) Time {
+	return rtime.Date(y, m, d, h, mi, s, ns, loc)
+}
+
+// Timer mirrors time.Timer with a shim channel.
+type Timer struct {
+	C    *vrt.Chan[Time]
+	real *rtime.Timer
+	t    *Ticker
+	f    func()
+}
+
+func NewTimer(d Duration) *Timer {
+	c := vrt.MakeChan[Time](1)
+	if vrt.Active() {
+		tk := &Ticker{C: c}
+		tickers = append(tickers, tk)
+		return &Timer{C: c, t: tk}
+	}
+	tm := &Timer{C: c}
+	tm.real = rtime.AfterFunc(d, func() { c.TrySendEnv(rtime.Now()) })
+	return tm
+}
+
+// AfterFunc runs f in its own goroutine / scheduler thread when the timer fires
+// (under the scheduler: with the next FireAll).
+func AfterFunc(d Duration, f func()) *Timer {
+	if vrt.Active() {
+		c := vrt.MakeChan[Time](1)
+		tk := &Ticker{C: c}
+		tickers = append(tickers, tk)
+		vrt.GoNamed("afterfunc", true, func() {
+			if _, ok := c.Recv2(); ok && !tk.dead {
+				f()
+			}
+		})
+		return &Timer{C: c, t: tk}
+	}
+	return &Timer{real: rtime.AfterFunc(d, f)}
+}
+
+func (t *Timer) Stop() bool {
+	if t.real != nil {
+		return t.real.Stop()
+	}
+	if t.t != nil {
+		was := !t.t.dead
+		t.t.dead = true
+		return was
+	}
+	return false
+}
+
+func (t *Timer) Reset(d Duration) bool {
+	if t.real != nil {
+		return t.real.Reset(d)
+	}
+	if t.t != nil {
+		was := !t.t.dead
+		t.t.dead = false
+		return was
+	}
+	return false
+}
+
+// Tick mirrors time.Tick.
+func Tick(d Duration) *vrt.Chan[Time] { return NewTicker(d).C }
